@@ -855,12 +855,62 @@ class Norm:
             ok, v = self.repo.try_const(q)
             if ok and isinstance(v, (int, bytes, str, bool, float, type(None))):
                 return C(v)
+            t = self.new_constant_term(q)
+            if t is not None:
+                return t
             return ("g", q)
         if kind == "mod":
             return ("g", "mod:" + q)
         if kind == "ext":
             return ("g", "ext:" + q)
         return ("g", q)
+
+    _PURE_CALLS = {"list", "tuple", "range", "pow", "len", "frozenset", "set", "dict", "sorted", "min", "max", "int", "bytes", "str", "reversed",
+                   "Struct", "itemgetter", "attrgetter", "bytearray", "enumerate", "zip", "sum", "abs"}
+
+    def new_constant_term(self, q: str) -> Optional[Term]:
+        """a module-level name that did not exist in the recorded tree and is bound once to a pure expression (a table, a precompiled
+        struct, a tuple of names): the name denotes that expression - the counterpart, for values, of helpers extracted later"""
+        known = self.__dict__.get("_api_globals")
+        if known is None:
+            import json
+            import os
+            p_ = os.path.join(os.path.dirname(os.path.dirname(os.path.dirname(os.path.abspath(__file__)))), "reference", "api_globals.json")
+            try:
+                known = set(json.load(open(p_)))
+            except OSError:
+                known = False
+            self.__dict__["_api_globals"] = known
+        if known is False or q in known:
+            return None
+        cache = self.__dict__.setdefault("_new_const_terms", {})
+        if q in cache:
+            return cache[q]
+        cache[q] = None
+        modname, _, name = q.rpartition(".")
+        m = self.repo.modules.get(modname)
+        node = m.assign_nodes.get(name) if m is not None else None
+        if node is None:
+            return None
+        n_assign = sum(1 for st in ast.walk(m.tree) if isinstance(st, (ast.Assign, ast.AnnAssign, ast.AugAssign))
+                       for tg in (st.targets if isinstance(st, ast.Assign) else [st.target]) if isinstance(tg, ast.Name) and tg.id == name)
+        if n_assign != 1:
+            return None
+        for sub in ast.walk(node):
+            if isinstance(sub, ast.Call):
+                fn = dotted_name(sub.func) or ""
+                if fn.split(".")[-1] not in self._PURE_CALLS:
+                    return None
+            elif isinstance(sub, (ast.Lambda, ast.Await, ast.Yield, ast.YieldFrom, ast.NamedExpr, ast.Starred)):
+                return None
+        saved = self.on_call, self.on_property
+        self.on_call = self.on_property = None
+        try:
+            t = self.norm(node, Scope(m, None))
+        finally:
+            self.on_call, self.on_property = saved
+        cache[q] = t
+        return t
 
     def fresh_lv(self, name: str) -> Term:
         self._lv += 1
@@ -895,7 +945,27 @@ class Norm:
                         return v
         return self.mk_attr(base, node.attr, scope)
 
+    def _nt_field(self, base: Term, attr: str) -> Optional[Term]:
+        """field of a freshly built NamedTuple value: K(a, b).second  ->  b"""
+        if base[0] == "call" and base[1][0] == "g" and len(base) == 4:
+            fields = self.namedtuple_fields(base[1][1])
+            if fields is not None and attr in fields and not any(k_ == "**" for k_, _ in base[3] if isinstance(k_, str)):
+                i = fields.index(attr)
+                if i < len(base[2]):
+                    return base[2][i]
+                kw = {k_: v for k_, v in base[3] if isinstance(k_, str)}
+                if attr in kw:
+                    return kw[attr]
+        return None
+
     def mk_attr(self, base: Term, attr: str, scope: Optional[Scope]) -> Term:
+        v_ = self._nt_field(base, attr)
+        if v_ is not None:
+            return v_
+        if base[0] == "ife":
+            a_, b_ = self._nt_field(base[2], attr), self._nt_field(base[3], attr)
+            if a_ is not None and b_ is not None:
+                return self.mk_ife(base[1], a_, b_)
         if attr == "size" and base[0] == "call" and base[1] == ("g", "ext:struct.Struct") and len(base[2]) == 1 and base[2][0][0] == "c":
             import struct as _struct
             try:
@@ -979,7 +1049,7 @@ class Norm:
     def n_UnaryOp(self, node: ast.UnaryOp, scope: Scope) -> Term:
         v = self.norm(node.operand, scope)
         if isinstance(node.op, ast.Not):
-            return mk_not(self.as_cond(v))
+            return mk_not(self.truth(v, scope))
         if isinstance(node.op, ast.USub):
             return lin_scale(v, -1)
         if isinstance(node.op, ast.UAdd):
@@ -987,6 +1057,15 @@ class Norm:
         return ("op", "invert", v, C(None))
 
     def as_cond(self, v: Term) -> Term:
+        return v
+
+    def truth(self, v: Term, scope: Optional[Scope]) -> Term:
+        """the condition `v` stands for in a test position: for a value known to be bytes / str / list / dict it is `len(v) != 0`"""
+        if v[0] in ("cmp", "cmpz", "and", "or", "not", "c", "call") and not (v[0] == "call" and v[1][0] == "a"):
+            return v
+        ty = self.type_of(v, scope)
+        if ty in (P_BYTES, P_STR) or (ty and ty[0] in ("L", "M")):
+            return self.mk_cmp_s("!=", ("call", ("g", "builtin:len"), (v,), ()), C(0), scope)
         return v
 
     def n_BoolOp(self, node: ast.BoolOp, scope: Scope) -> Term:
@@ -1003,7 +1082,7 @@ class Norm:
         return mk_and(vals) if isinstance(node.op, ast.And) else mk_or(vals)
 
     def n_IfExp(self, node: ast.IfExp, scope: Scope) -> Term:
-        c = self.norm(node.test, scope)
+        c = self.truth(self.norm(node.test, scope), scope)
         self.guard_stack.append(c)
         try:
             a = self.norm(node.body, scope)
@@ -1271,6 +1350,13 @@ class Norm:
 
     def iter_domain(self, it: Term) -> Tuple[Term, Tuple[Any, ...]]:
         """canonical (domain, roles-of-targets) for an iterable term."""
+        if it[0] == "cat":
+            # iterating a concatenation: whether the pieces are lists or tuples does not matter
+            parts = []
+            for p_ in it[1]:
+                d_, r_ = self.iter_domain(p_)
+                parts.append(d_ if r_ == ("elem",) else p_)
+            return ("cat", tuple(parts)), ("elem",)
         if it[0] == "call" and not it[3]:
             f = it[1]
             if f == ("g", "builtin:enumerate") and len(it[2]) == 1:
@@ -1326,8 +1412,26 @@ class Norm:
     # ------------------------------------------------------------ calls
     def n_Call(self, node: ast.Call, scope: Scope) -> Term:
         f = self.norm(node.func, scope)
+        if f in (("g", "ext:typing.cast"), ("g", "ext:cast")) and len(node.args) == 2 and not node.keywords:
+            v = self.norm(node.args[1], scope)          # typing.cast(T, x) is x
+            ty = self.typer.parse_ann(node.args[0], scope.module, scope.func)
+            if ty is not None and v[0] != "c":
+                self.var_types.setdefault(v, ty)
+            return v
         args = [self.norm(a, scope) for a in node.args]
         kwargs = [(k.arg or "**", self.norm(k.value, scope)) for k in node.keywords]
+        if any(k_ == "**" for k_, _ in kwargs):
+            # f(**{"a": x, "b": y}) is f(a=x, b=y)
+            spliced = []
+            for k_, v in kwargs:
+                if k_ == "**" and v[0] == "dict" and len(v) > 1 and all(isinstance(kv, tuple) and len(kv) == 2 and kv[0][0] == "c" and isinstance(kv[0][1], str)
+                                                                       for kv in v[1]):
+                    spliced.extend((kv[0][1], kv[1]) for kv in v[1])
+                else:
+                    spliced.append((k_, v))
+            kwargs = spliced
+        while f[0] == "call" and f[1] in (("g", "ext:functools.partial"), ("g", "ext:partial")) and f[2] and not f[3]:
+            f, args = f[2][0], list(f[2][1:]) + args        # calling a partial application
         t = self.mk_call(f, args, kwargs, scope)
         if self.on_call is not None:
             r = self.on_call(t, node, scope, (f, args, kwargs))
@@ -1394,7 +1498,10 @@ class Norm:
         return out
 
     def namedtuple_fields(self, q: str) -> Optional[List[str]]:
-        """field names of a module-level `X = namedtuple('X', [...])`"""
+        """field names of a module-level `X = namedtuple('X', [...])` or `class X(NamedTuple): a: T; b: U`"""
+        ci = self.repo.classes.get(q)
+        if ci is not None and any((dotted_name(b) or "").split(".")[-1] == "NamedTuple" for b in ci.base_exprs) and "__new__" not in ci.methods:
+            return [st.target.id for st in ci.node.body if isinstance(st, ast.AnnAssign) and isinstance(st.target, ast.Name)]
         modname, _, name = q.rpartition(".")
         m = self.repo.modules.get(modname)
         node = m.assign_nodes.get(name) if m is not None else None
@@ -1413,6 +1520,9 @@ class Norm:
                 return substitute(f[2], {("v", "λ%d" % i): a for i, a in enumerate(args)})
             if f[0] == "ife" and f[2][0] == "lam" and f[3][0] == "lam" and f[2][1] == len(args) == f[3][1]:
                 return self.mk_ife(f[1], self.mk_call(f[2], args, kwargs, scope), self.mk_call(f[3], args, kwargs, scope))
+        # calling a functools.partial application calls the function with the bound arguments first
+        if f[0] == "call" and f[1] in (("g", "ext:functools.partial"), ("g", "ext:partial")) and f[2] and not f[3]:
+            return self.mk_call(f[2][0], list(f[2][1:]) + list(args), kwargs, scope)
         # keyword -> positional for known repo signatures
         sig = self.signature_of(f, scope)
         if sig is not None and kwargs and not any(k == "**" for k, _ in kwargs):
